@@ -1,6 +1,12 @@
 import typing
 from typing import Iterable
-from .structures import REQUIRED_FIELDS, StructMeta, Structure, _init_class_dict
+from .structures import (
+    REQUIRED_FIELDS,
+    Field,
+    StructMeta,
+    Structure,
+    _init_class_dict,
+)
 
 T = typing.TypeVar("T")
 
@@ -98,7 +104,7 @@ class AllFieldsRequiredMeta(type):
         cls_dict[REQUIRED_FIELDS] = []
         for k, v in clazz.get_all_fields_by_name().items():
             cls_dict[k] = v
-            if getattr(v, "_default") is None:
+            if isinstance(v, Field) and getattr(v, "_default", None) is None:
                 cls_dict[REQUIRED_FIELDS].append(k)
 
         newclass = type(classname, (Structure,), cls_dict)
